@@ -102,7 +102,7 @@ def make_dataset(path, shape, variables, crs=True, packed=False, classic=False):
 
 
 def snap(x):
-    fr = Fraction(float(x)).limit_denominator(1000)
+    fr = Fraction(float(x)).limit_denominator(1000000)
     if abs(float(fr) - float(x)) <= 1e-9 * max(1.0, abs(float(x))):
         return [fr.numerator, fr.denominator]
     return [int(float(x) * 1000), -1]
@@ -156,6 +156,8 @@ def run_case(job):
             names = []
             for i, g in enumerate(gs):
                 vp.ARRAYS["g%d" % i] = to_array(g, nomask=(jid % 3 != 0))
+                if jid % 3 == 1 and isinstance(vp.ARRAYS["g%d" % i], np.ma.MaskedArray):
+                    vp.ARRAYS["g%d" % i].fill_value = -7777      # a result may carry its own fill value
                 nm = ["Z_first", "A_second", "M_third"][i]
                 p.add_command(p.find_command_class("ArrayConst"), nm, {"Key": "g%d" % i})
                 names.append(nm)
